@@ -452,6 +452,6 @@ int main(int argc, char** argv)
 	def.ncases = [](Ctx&) { return nChunks() + gExtras.size(); };
 	def.run = runCase;
 	def.describe = [](std::size_t i) { return i < nChunks() ? "file sets " + std::to_string(i * kChunk) + ".." : "extra case " + std::to_string(i - nChunks()); };
-	def.caseTimeoutS = 900;
+	def.caseTimeoutS = 300;
 	return mc::Main(argc, argv, def);
 }
